@@ -385,6 +385,30 @@ pub fn demote<ID: Eq + Hash, C: Conditions>(
     }
 }
 
+/// Strict "lower than" used to break ties between two access values with equal counters.
+///
+/// `Access::partial_cmp` answers whether one access satisfies a request for another; it is not
+/// antisymmetric once conditions are involved (for conditions `c1 < c2` both
+/// `(c2, read) < (c1, write)` and `(c1, write) < (c2, read)` hold, and `read` vs. `(c1, read)` are
+/// mutually "not less"), so using it here made the merge result depend on the argument order.
+/// This comparison is lexicographic: level first, then conditions, where an unconditional
+/// access ranks above any conditional one. It is a strict total order whenever the conditions are
+/// totally ordered, which makes `merge` commutative, associative and idempotent. The same order is
+/// used when transitive access levels are combined in `GroupCrdtInnerState::members`.
+pub(crate) fn is_lower_access<C: Conditions>(a: &Access<C>, b: &Access<C>) -> bool {
+    use std::cmp::Ordering;
+
+    match a.level.cmp(&b.level) {
+        Ordering::Less => true,
+        Ordering::Greater => false,
+        Ordering::Equal => match (a.conditions.as_ref(), b.conditions.as_ref()) {
+            (Some(_), None) => true,
+            (Some(a_cond), Some(b_cond)) => a_cond < b_cond,
+            (None, _) => false,
+        },
+    }
+}
+
 /// Merge two group states into one using a deterministic, conflict-free approach.
 ///
 /// Grow-only counters are used internally to track state changes; one counter for add / remove
@@ -421,7 +445,7 @@ pub fn merge<ID: Clone + Eq + Hash, C: Conditions>(
 
                 // If the access counters are the same, take the lower of the two access levels.
                 if member_state_1.access_counter == member_state.access_counter
-                    && member_state_1.access < member_state.access
+                    && is_lower_access(&member_state_1.access, &member_state.access)
                 {
                     member_state.access = member_state_1.access;
                 }
